@@ -623,8 +623,86 @@ def loads_cases():
                    "names": list(names)}
 
 
+def run_shared_case(case):
+    """Constraints live on the digest callables, so they outlive a load and are shared by
+    every plugin made from one callable. case["shape"]:
+      "swap": load 1 installs A1 (before X) and X; load 2 installs another callable under
+              A's name that is *after* X, and the same X: X must now come first
+      "twice": one callable is installed under two names x and y, a third plugin is before x
+              and after y: the order must be y, third, x
+    The deciding digest X is decorated (constraints naming the absent plugin) or plain."""
+    import cobald.daemon.core.config as core_config
+    from cobald.daemon.config.mapping import load_configuration
+    from cobald.daemon.plugins import constraints
+
+    calls = []
+
+    def recording(tag):
+        def digest(content):
+            calls.append((tag, content))
+
+        digest.__name__ = digest.__qualname__ = "digest_" + tag
+        return digest
+
+    a_name, x_name, y_name = case["names"]
+    target = recording("X")
+    if case["decorated"]:
+        target = constraints(after=[ABSENT], before=[ABSENT])(target)
+    if case["shape"] == "swap":
+        rounds = [
+            ([(a_name, constraints(before=[x_name])(recording("A1"))), (x_name, target)],
+             [a_name, x_name]),
+            ([(a_name, constraints(after=[x_name])(recording("A2"))), (x_name, target)],
+             [x_name, a_name]),
+            ([(a_name, constraints(before=[x_name])(recording("A3"))), (x_name, target)],
+             [a_name, x_name]),
+        ]
+    else:
+        third = constraints(before=[x_name], after=[y_name])(recording("T"))
+        rounds = [([(x_name, target), (a_name, third), (y_name, target)],
+                   [y_name, a_name, x_name])] * 2
+    if case.get("reversed"):
+        rounds = [(list(reversed(installed)), want) for installed, want in rounds]
+    saved = core_config.get_entrypoints
+    try:
+        for index, (installed, want) in enumerate(rounds):
+            core_config.get_entrypoints = lambda group, installed=installed: [
+                FakeEntryPoint(name, obj) for name, obj in installed]
+            del calls[:]
+            contents = {name: {"content-of": name} for name, _obj in installed}
+            try:
+                plugins = core_config.load_section_plugins(GROUP)
+                load_configuration(dict(contents), plugins)
+            except Exception as err:  # noqa: B902
+                return ("shared:%s:raised-%s" % (case["shape"], type(err).__name__),
+                        "load %d of shape %s (names %r) raised %s: %s" % (
+                            index, case["shape"], case["names"], type(err).__name__, err))
+            order = [content["content-of"] for _tag, content in calls]
+            if order != want:
+                return ("shared:%s:order" % case["shape"],
+                        "load %d of shape %s: sections digested in order %r, the constraints "
+                        "of this load demand %r" % (index, case["shape"], order, want))
+    finally:
+        core_config.get_entrypoints = saved
+    return None
+
+
+def shared_cases():
+    for shape, decorated, backwards, names in itertools.product(
+            ("swap", "twice"), (True, False), (False, True),
+            itertools.permutations(["pa", "pb", "pc"])):
+        yield {"shared": True, "shape": shape, "decorated": decorated,
+               "reversed": backwards, "names": list(names)}
+
+
 def shard_loads(args):
     acc = Acc()
+    for case in shared_cases():
+        problem = run_shared_case(case)
+        acc.case(nontrivial_key=repr(case), sample=case)
+        acc.outcome(("shared", case["shape"], problem is None))
+        if problem:
+            acc.violation(problem[0], problem[1], {"case": case})
     for case in loads_cases():
         problem = run_loads_case(case)
         acc.case(nontrivial_key=repr(case), sample=case)
@@ -666,7 +744,9 @@ def run(ctx):
              "subset of the plugins' sections x unknown section yes/no x logging yes/no; "
              "a slice of them again through a real *.dist-info directory (must agree with "
              "the fake entry points). A case is non-trivial when an ordering constraint "
-             "has both its plugins' sections present, or the configuration must be "
+             "has both its plugins' sections present (plus load histories: the same "
+             "callables loaded with changing sets, a name whose constraint is reversed "
+             "between loads, one callable installed under two names), or the configuration must be "
              "rejected, or a constraint names the absent plugin; distinct by the full case"
              % (list(NAMES), ABSENT,
                 "at most 2 relations in total" if ctx.quick else "all 3^9 assignments"),
@@ -690,6 +770,9 @@ def run(ctx):
 
 
 def replay(data):
+    if data["case"].get("shared"):
+        problem = run_shared_case(data["case"])
+        return None if problem is None else "%s: %s" % problem
     if data["case"].get("loads"):
         problem = run_loads_case(data["case"])
         return None if problem is None else "%s: %s" % problem
